@@ -1,5 +1,6 @@
 import EdsModel
 import EdsSpec.C16
+import EdsProofs.Defaults
 /-
   C16 — Defaulting is a fixed point and no accepted spec can crash the controller.
 -/
@@ -38,5 +39,214 @@ theorem C16_validate_total (s : Strategy) (tn : String) (h : isDefaulted s tn = 
           cases afe <;> cases ape <;> simp
         rw [h1]
         cases (afe && ape && decide (afm < apm)) <;> simp <;> (repeat' split) <;> simp
+
+/-! ## Defaulting -/
+
+/-- **Idempotence**: defaulting a defaulted spec changes nothing (any strategy, any default mode,
+including modes the controller never passes). -/
+theorem C16_idempotent (s : Strategy) (m : String) :
+    defaultSpec (defaultSpec s m).1 m = defaultSpec s m := by
+  rcases s with ⟨r, c, f⟩
+  cases c <;> simp [defaultSpec, defaultRolling_idem, defaultCanary_idem]
+
+/-- **Exact condition for recognition**: the result of defaulting is recognised as defaulted iff
+the canary (if any) ends up with a non-empty validation mode, i.e. the user's mode or the default
+mode is non-empty. -/
+theorem C16_recognised_iff (s : Strategy) (m : String) :
+    isDefaulted (defaultSpec s m).1 (defaultSpec s m).2 = true ↔
+      ∀ c, s.canary = some c → c.validationMode ≠ "" ∨ m ≠ "" := by
+  rcases s with ⟨r, c, f⟩
+  cases c with
+  | none => simp [isDefaulted, defaultSpec, defaultRolling_defaulted]
+  | some c =>
+    simp only [isDefaulted, defaultSpec, defaultRolling_defaulted, Option.map_some, Option.isSome_some,
+      beq_self_eq_true, Bool.and_true, Bool.true_and, Option.some.injEq, forall_eq']
+    constructor
+    · intro h
+      simp only [isDefaultedCanary, Bool.and_eq_true, bne_iff_ne, ne_eq] at h
+      have hne : defaultedMode c m ≠ "" := h.1.1.1.1.2
+      unfold defaultedMode at hne
+      by_cases h1 : c.validationMode = ""
+      · right; simpa [h1] using hne
+      · left; exact h1
+    · exact defaultCanary_defaulted c m
+
+/-- **Recognised**: with a non-empty default mode (the controller passes "auto" or "manual") the
+result of defaulting is recognised as defaulted. -/
+theorem C16_recognised (s : Strategy) (m : String) (hm : m ≠ "") :
+    isDefaulted (defaultSpec s m).1 (defaultSpec s m).2 = true :=
+  (C16_recognised_iff s m).2 (fun _ _ => Or.inr hm)
+
+/-- the controller's instantiation of `C16_recognised`. -/
+theorem C16_recognised_ctl (s : Strategy) (m : String) (hm : m = "auto" ∨ m = "manual") :
+    isDefaulted (defaultSpec s m).1 (defaultSpec s m).2 = true := by
+  apply C16_recognised
+  rcases hm with rfl | rfl <;> decide
+
+/-- a canary with every field unset (and the empty validation mode). -/
+def cexEmptyCanary : Strategy :=
+  { rollingUpdate := { maxUnavailable := none, maxPodSchedulerFailure := none, maxParallelPodCreation := none,
+                       slowStartInterval := none, slowStartAdditiveIncrease := none },
+    canary := some { replicas := none, duration := none, nodeSelector := none, antiAffinityKeys := [],
+                     autoPause := none, autoFail := none, noRestartsDuration := none, validationMode := "" },
+    reconcileFrequency := none }
+
+/-- the hypothesis `m ≠ ""` of `C16_recognised` is needed: with an empty user mode and an empty
+default mode the defaulted canary keeps the empty mode and is *not* recognised as defaulted. -/
+example : isDefaulted (defaultSpec cexEmptyCanary "").1 (defaultSpec cexEmptyCanary "").2 = false := by
+  decide
+
+/-- **User values survive**: every field the user set is unchanged by defaulting, and the
+template name is cleared. -/
+theorem C16_preserves_user (s : Strategy) (m : String) :
+    preserves s (defaultSpec s m).1 = true ∧ (defaultSpec s m).2 = "" := by
+  refine ⟨?_, rfl⟩
+  rcases s with ⟨r, c, f⟩
+  simp only [preserves, defaultSpec, defaultRolling_preserves, Bool.true_and, Bool.and_eq_true]
+  constructor
+  · cases c with
+    | none => simp [preservesCanary]
+    | some c => simpa using defaultCanary_preserves c m
+  · cases f <;> simp
+
+/-- **Fills**: after defaulting, every pointer the reconcilers dereference is set — for every
+default mode, even the empty one (`fills` does not ask for a non-empty mode). -/
+theorem C16_fills (s : Strategy) (m : String) : fills (defaultSpec s m).1 = true := by
+  rcases s with ⟨r, c, f⟩
+  cases c with
+  | none => simp [fills, defaultSpec, defaultRolling_defaulted]
+  | some c =>
+    simp only [fills, defaultSpec, defaultRolling_defaulted, Option.map_some, Option.isSome_some,
+      Bool.true_and]
+    exact defaultCanary_fills c m
+
+/-- **Defaulting is a no-op on a defaulted spec** — partial version.  `isDefaulted` does not look
+at `canary.noRestartsDuration`, but `defaultCanary` fills it in "auto" mode; so the statement
+`isDefaulted s tn = true → (defaultSpec s m).1 = s` needs the extra hypothesis that an "auto"
+canary already carries its `noRestartsDuration` (counterexample below). -/
+theorem C16_default_noop_on_defaulted_partial (s : Strategy) (tn m : String)
+    (h : isDefaulted s tn = true)
+    (hn : ∀ c, s.canary = some c → c.validationMode = "auto" → c.noRestartsDuration.isSome = true) :
+    (defaultSpec s m).1 = s := by
+  rcases s with ⟨r, c, f⟩
+  simp only [isDefaulted, Bool.and_eq_true] at h
+  obtain ⟨⟨⟨hr, hc⟩, hf⟩, _⟩ := h
+  simp only [defaultSpec, defaultRolling_noop r hr]
+  congr 1
+  · cases c with
+    | none => rfl
+    | some c => simp only [Option.map_some]; rw [defaultCanary_noop c m hc (hn c rfl)]
+  · cases f <;> simp at hf ⊢
+
+/-- a fully defaulted "auto" canary without `noRestartsDuration`. -/
+def cexAutoNoNRD : Strategy :=
+  { rollingUpdate := { maxUnavailable := some (intVal 1), maxPodSchedulerFailure := some (intVal 0),
+                       maxParallelPodCreation := some 250, slowStartInterval := some 60,
+                       slowStartAdditiveIncrease := some (intVal 1) },
+    canary := some { replicas := some (intVal 1), duration := some 600,
+                     nodeSelector := some { matchLabels := [], exprs := [] }, antiAffinityKeys := [],
+                     autoPause := some { enabled := some true, maxRestarts := some 2, maxSlowStartDuration := none },
+                     autoFail := some { enabled := some true, maxRestarts := some 5, maxRestartsDuration := none,
+                                        canaryTimeout := none },
+                     noRestartsDuration := none, validationMode := "auto" },
+    reconcileFrequency := some 10 }
+
+/-- counterexample to the unrestricted no-op statement: the spec is recognised as defaulted, yet
+defaulting (in either controller mode) still sets `noRestartsDuration`. -/
+example : isDefaulted cexAutoNoNRD "" = true ∧
+    (defaultSpec cexAutoNoNRD "auto").1 ≠ cexAutoNoNRD ∧ (defaultSpec cexAutoNoNRD "manual").1 ≠ cexAutoNoNRD ∧
+    ((defaultSpec cexAutoNoNRD "auto").1.canary.bind (·.noRestartsDuration)) = some Dflt.canaryNoRestartsDuration := by
+  decide
+
+/-- **No defaulting loop**: after defaulting with a non-empty default mode, the reconciler's
+"not defaulted" branch is not taken again. -/
+theorem C16_no_default_loop (s : Strategy) (m : String) (hm : m ≠ "") :
+    isDefaulted (defaultSpec s m).1 "" = true :=
+  C16_recognised s m hm
+
+/-! ## Validation -/
+
+/-- (a) auto-fail and auto-pause both enabled with `autoFail.maxRestarts < autoPause.maxRestarts`. -/
+theorem C16_validate_rejects_autofail_restarts (s : Strategy) (c : Canary) (af : AutoFail) (ap : AutoPause)
+    (a b : Int) (hc : s.canary = some c) (haf : c.autoFail = some af) (hap : c.autoPause = some ap)
+    (hafe : af.enabled = some true) (hape : ap.enabled = some true)
+    (ha : af.maxRestarts = some a) (hb : ap.maxRestarts = some b) (hlt : a < b) :
+    validateSpec s = .errAutoFailRestarts := by
+  unfold validateSpec
+  simp [hc, validateClause1_eq c af ap true true a b haf hap hafe hape ha hb, hlt]
+
+/-- (b) clause (a) does not fire, auto-fail enabled and `canaryTimeout ≤ duration`. -/
+theorem C16_validate_rejects_canary_timeout (s : Strategy) (c : Canary) (af : AutoFail) (ap : AutoPause)
+    (ape : Bool) (a b : Int) (t d : Dur)
+    (hc : s.canary = some c) (haf : c.autoFail = some af) (hap : c.autoPause = some ap)
+    (hafe : af.enabled = some true) (hape : ap.enabled = some ape)
+    (ha : af.maxRestarts = some a) (hb : ap.maxRestarts = some b)
+    (hna : ¬ (ape = true ∧ a < b))
+    (ht : af.canaryTimeout = some t) (hd : c.duration = some d) (htd : t ≤ d) :
+    validateSpec s = .errCanaryTimeout := by
+  have h1 : validateClause1 c = some false := by
+    rw [validateClause1_eq c af ap true ape a b haf hap hafe hape ha hb]
+    cases ape <;> simp_all
+  unfold validateSpec
+  simp [hc, h1, haf, hafe, ht, hd, htd]
+
+/-- (c) clauses (a) and (b) do not fire, mode "manual", `duration` set. -/
+theorem C16_validate_rejects_duration_manual (s : Strategy) (c : Canary) (af : AutoFail) (ap : AutoPause)
+    (afe ape : Bool) (a b : Int) (d : Dur)
+    (hc : s.canary = some c) (haf : c.autoFail = some af) (hap : c.autoPause = some ap)
+    (hafe : af.enabled = some afe) (hape : ap.enabled = some ape)
+    (ha : af.maxRestarts = some a) (hb : ap.maxRestarts = some b)
+    (hna : ¬ (afe = true ∧ ape = true ∧ a < b))
+    (hd : c.duration = some d)
+    (hnb : ¬ (afe = true ∧ ∃ t, af.canaryTimeout = some t ∧ t ≤ d))
+    (hm : c.validationMode = "manual") :
+    validateSpec s = .errDurationManual := by
+  have h1 : validateClause1 c = some false := by
+    rw [validateClause1_eq c af ap afe ape a b haf hap hafe hape ha hb]
+    cases afe <;> cases ape <;> simp_all
+  unfold validateSpec
+  simp only [hc, h1, haf, hafe, hd, hm, Option.bind_some, Option.getD_some]
+  cases hto : af.canaryTimeout with
+  | none => simp
+  | some t =>
+    have : ¬ (afe = true ∧ t ≤ d) := fun h => hnb ⟨h.1, t, hto, h.2⟩
+    cases afe <;> simp_all
+
+/-- (d) clause (a) does not fire, mode "manual", no `duration`, `noRestartsDuration` set
+(clause (b) cannot fire without a `duration`). -/
+theorem C16_validate_rejects_norestarts_manual (s : Strategy) (c : Canary) (af : AutoFail) (ap : AutoPause)
+    (afe ape : Bool) (a b : Int) (n : Dur)
+    (hc : s.canary = some c) (haf : c.autoFail = some af) (hap : c.autoPause = some ap)
+    (hafe : af.enabled = some afe) (hape : ap.enabled = some ape)
+    (ha : af.maxRestarts = some a) (hb : ap.maxRestarts = some b)
+    (hna : ¬ (afe = true ∧ ape = true ∧ a < b))
+    (hm : c.validationMode = "manual") (hd : c.duration = none) (hn : c.noRestartsDuration = some n) :
+    validateSpec s = .errNoRestartsManual := by
+  have h1 : validateClause1 c = some false := by
+    rw [validateClause1_eq c af ap afe ape a b haf hap hafe hape ha hb]
+    cases afe <;> cases ape <;> simp_all
+  unfold validateSpec
+  simp only [hc, h1, hd, hm, hn]
+  cases af.canaryTimeout <;> simp
+
+/-- an accepted "manual" canary has no `duration`. -/
+theorem C16_validate_ok_manual_no_duration (s : Strategy) (c : Canary)
+    (hok : validateSpec s = .ok) (hc : s.canary = some c) (hm : c.validationMode = "manual") :
+    c.duration = none := by
+  unfold validateSpec at hok
+  simp only [hc, hm] at hok
+  cases hd : c.duration with
+  | none => rfl
+  | some d =>
+    exfalso
+    rw [hd] at hok
+    cases h1 : validateClause1 c with
+    | none => simp [h1] at hok
+    | some b =>
+      cases b
+      · simp only [h1] at hok
+        revert hok
+        (repeat' split) <;> simp_all
+      · simp [h1] at hok
 
 end Eds
